@@ -246,35 +246,38 @@ Definition try_days (n : Z) : option Z := try_dur (n * 86400).
 Definition opt_dur (o : option Z) : rret :=
   match o with Some d => Ok (Some (TDuration d)) | None => Ok None end.
 
+(* the arithmetic of duration_parse (duration_rules.rs:42-68): N units as seconds, None when
+   out of the i64 / chrono::Duration range or when the word is not a duration unit *)
+Definition duration_of_const (c : consttype) (n : Z) : option Z :=
+  match c with
+  | CYear => option_bind (chk_i64 (n * 365)) try_days
+  | CMonth =>
+    let years := Z.quot n 12 in let month := Z.rem n 12 in
+    option_bind (option_bind (chk_i64 (years * 365)) (fun d => chk_i64 (d + 30 * month))) try_days
+  | CDay =>
+    let years := Z.quot n 365 in
+    let month := Z.quot (Z.rem n 365) 30 in
+    let day := Z.rem (Z.rem n 365) 30 in
+    try_days (365 * years + 30 * month + day)
+  | CWeek => try_dur (n * 604800)
+  | CHour => try_dur (n * 3600)
+  | CMinute => try_dur (n * 60)
+  | CSecond => try_dur n
+  | _ => None
+  end.
+
 Definition duration_parse (cfg : config F) (lang : str) (vs : vars F) (fs : fields) : rret :=
   if has "duration" fs && has "type" fs then
     match get_number vs (s "duration") fs with
     | None => none
     | Some x =>
-      let n := as_i64 x in
       match get_text vs (s "type") fs with
       | None => none
       | Some ty =>
         do c <- constant_of cfg lang ty;
         match c with
         | None => none
-        | Some c =>
-          match c with
-          | CYear => opt_dur (option_bind (chk_i64 (n * 365)) try_days)
-          | CMonth =>
-            let years := Z.quot n 12 in let month := Z.rem n 12 in
-            opt_dur (option_bind (option_bind (chk_i64 (years * 365)) (fun d => chk_i64 (d + 30 * month))) try_days)
-          | CDay =>
-            let years := Z.quot n 365 in
-            let month := Z.quot (Z.rem n 365) 30 in
-            let day := Z.rem (Z.rem n 365) 30 in
-            opt_dur (try_days (365 * years + 30 * month + day))
-          | CWeek => opt_dur (try_dur (n * 604800))
-          | CHour => opt_dur (try_dur (n * 3600))
-          | CMinute => opt_dur (try_dur (n * 60))
-          | CSecond => opt_dur (try_dur n)
-          | _ => none
-          end
+        | Some c => opt_dur (duration_of_const c (as_i64 x))
         end
       end
     end
@@ -293,6 +296,19 @@ Definition combine_durations (vs : vars F) (fs : fields) : rret :=
        end) fs 0
   else none.
 
+(* as_duration on a duration (duration_rules.rs:107-118): whole units, rounded down; the
+   constructors cannot overflow because the count is at most the source magnitude *)
+Definition duration_as (c : consttype) (d : Z) : option Z :=
+  let secs := Z.abs d in
+  match c with
+  | CDay => Some (secs / DAY * 86400)
+  | CSecond => Some secs
+  | CMinute => Some (secs / MINUTE * 60)
+  | CHour => Some (secs / HOUR * 3600)
+  | CWeek => Some (secs / WEEK * 604800)
+  | _ => None
+  end.
+
 Definition as_duration (cfg : config F) (lang : str) (vs : vars F) (fs : fields) : rret :=
   if has "source" fs && has "type" fs then
     match get_text vs (s "type") fs with
@@ -303,16 +319,7 @@ Definition as_duration (cfg : config F) (lang : str) (vs : vars F) (fs : fields)
       | None => none
       | Some c =>
         match field_token vs (s "source") fs with
-        | Some (TDuration d) =>
-          let secs := Z.abs d in
-          match c with
-          | CDay => do r <- dur_days (secs / DAY); some (TDuration r)
-          | CSecond => do r <- dur_seconds secs; some (TDuration r)
-          | CMinute => do r <- dur_minutes (secs / MINUTE); some (TDuration r)
-          | CHour => do r <- dur_hours (secs / HOUR); some (TDuration r)
-          | CWeek => do r <- dur_weeks (secs / WEEK); some (TDuration r)
-          | _ => none
-          end
+        | Some (TDuration d) => opt_dur (duration_as c d)
         | Some (TTime t _) =>
           let secs := secs_of_day t in
           match c with
